@@ -409,10 +409,76 @@ func c20RangeCheck(lc *explore.Local, _ struct{}, c c20Range) *explore.Fail {
 	return nil
 }
 
+// c20Long: the envelopes are left to run. Channels 1, 2 and 4 are triggered with NRx2 = Env (every start volume,
+// direction and period), optionally NRx2 is rewritten with Env2 without a new trigger after 20,000 cycles, and every
+// sample of the following Cycles machine cycles (an envelope with period 7 needs 1.7 million to cross the whole
+// range) must be finite and in [0,1).
+type c20Long struct {
+	Env    int  `json:"env"`
+	Env2   int  `json:"env2"` // -1: no rewrite
+	Cycles int  `json:"cycles"`
+	Sweep  bool `json:"sweep,omitempty"` // channel 1 also runs a frequency sweep
+}
+
+func c20LongCheck(lc *explore.Local, _ struct{}, c c20Long) *explore.Fail {
+	m := machine.New(machine.ROMOnly(), machine.Opts{Audio: true, ChanCap: 4096})
+	w := m.Map.Write
+	w(0xff26, 0x00)
+	w(0xff26, 0x80)
+	w(0xff24, 0x77)
+	w(0xff25, 0xff)
+	for i := 0; i < 16; i++ {
+		w(0xff30+uint16(i), 0xf0)
+	}
+	if c.Sweep {
+		w(0xff10, 0x79)
+	}
+	w(0xff12, uint8(c.Env))
+	w(0xff13, 0x00)
+	w(0xff14, 0x87)
+	w(0xff17, uint8(c.Env))
+	w(0xff18, 0xfe)
+	w(0xff19, 0x87)
+	w(0xff1a, 0x80)
+	w(0xff1c, 0x20)
+	w(0xff1d, 0xfd)
+	w(0xff1e, 0x87)
+	w(0xff21, uint8(c.Env))
+	w(0xff22, 0x00)
+	w(0xff23, 0x80)
+	var mx float32
+	n := 0
+	for cyc := 0; cyc < c.Cycles; cyc++ {
+		if cyc == 20000 && c.Env2 >= 0 {
+			w(0xff12, uint8(c.Env2))
+			w(0xff17, uint8(c.Env2))
+			w(0xff21, uint8(c.Env2))
+		}
+		m.A.EndMachineCycle()
+		l, r := drain(m)
+		for _, s := range [][]float32{l, r} {
+			for _, v := range s {
+				f := float64(v)
+				if math.IsNaN(f) || math.IsInf(f, 0) || v < 0 || v >= 1 {
+					return explore.Failf("sample not finite or outside [0,1)", "NRx2=%02x (rewritten with %02x after 20,000 cycles: %v): a sample %d machine cycles after the trigger is %v", c.Env, c.Env2&0xff, c.Env2 >= 0, cyc, v)
+				}
+				if v > mx {
+					mx = v
+				}
+				n++
+			}
+		}
+	}
+	lc.Eval(1)
+	lc.Trans(n)
+	lc.Outcome(uint64(math.Float32bits(mx)))
+	return nil
+}
+
 func init() {
 	register("C20", "model_checking", func(c *Ctx) {
 		if c.R != nil {
-			c.R.Rule = "(pacing) the sample channels are drained after every machine cycle for 2.3 million cycles (2.2 emulated seconds) from power-on and from 8 further phases (sound power-cycled there): per cycle at most one left and one right sample, always together, and one phase phi must exist with sample k in cycle floor((phi+95k)/4) for ALL k; with sound off or no outputs attached no sample at all; (power cycles) sound switched off and on again at every phase of the sample grid for several lengths (including zero: off and on between the same two cycles): no sample while off, and all samples must lie on one 95-clock grid, in emulated time or in sound-on time; (routing) NR51 (all 256) x playing-channel subset (16) x NR50 in {00,07,70,77}: a side with no playing channel routed to it is exactly 0, every sample finite and in [0,1), and for each playing channel not routed to a side the run that differs only in that channel's parameters gives the identical sample sequence on that side; (range) all channel volumes (16^3) x wave level x NR50 with everything routed"
+			c.R.Rule = "(pacing) the sample channels are drained after every machine cycle for 2.3 million cycles (2.2 emulated seconds) from power-on and from 8 further phases (sound power-cycled there): per cycle at most one left and one right sample, always together, and one phase phi must exist with sample k in cycle floor((phi+95k)/4) for ALL k; with sound off or no outputs attached no sample at all; (power cycles) sound switched off and on again at every phase of the sample grid for several lengths (including zero: off and on between the same two cycles): no sample while off, and all samples must lie on one 95-clock grid, in emulated time or in sound-on time; (routing) NR51 (all 256) x playing-channel subset (16) x NR50 in {00,07,70,77}: a side with no playing channel routed to it is exactly 0, every sample finite and in [0,1), and for each playing channel not routed to a side the run that differs only in that channel's parameters gives the identical sample sequence on that side; (range) all channel volumes (16^3) x wave level x NR50 with everything routed; (range over time) channels 1, 2 and 4 triggered with every NRx2 value and left to run for 1.2 s (thorough 5.3 s) of emulated time, NRx2 rewritten without a trigger, with a sweep: every sample finite and in [0,1)"
 			c.R.Assumptions = []string{"samples are taken from the channels handed to audio.New (machine wiring; the speakers wiring of gameboy.New is compared in C26)"}
 		}
 		cycles := 2300000
@@ -488,5 +554,32 @@ func init() {
 					}
 				}
 			}, func() struct{} { return struct{}{} }, c20RangeCheck)
+		long := 1_250_000
+		if c.Thorough() {
+			long = 5_600_000 // 255 envelope steps at the slowest period would still be in range
+		}
+		explore.Product(c.R, "range-over-time", explore.PartOpt{Bound: fmt.Sprintf("%d machine cycles per run (%.1f s of emulated time), every sample checked", long, float64(long)/1048576), Domain: "every NRx2 value (start volume x direction x period) on channels 1, 2 and 4, all four channels routed to both sides at full master volume; NRx2 rewritten without a trigger (quick: 5 x 22 value pairs; thorough: 5 x 256); with a channel-1 sweep"},
+			func(yield func(c20Long) bool) {
+				for env := 0; env < 256; env++ {
+					if !yield(c20Long{Env: env, Env2: -1, Cycles: long}) {
+						return
+					}
+				}
+				for _, a := range []int{0xf0, 0xf8, 0x00, 0x08, 0x0f} {
+					for b := 0; b < 256; b++ {
+						if !c.Thorough() && !(b >= 0xf9 || (b >= 0x01 && b <= 0x07) || b == 0x09 || b == 0x0f || b == 0x81 || b == 0x89 || b == 0x71) {
+							continue
+						}
+						if !yield(c20Long{Env: a, Env2: b, Cycles: long * 2 / 3}) {
+							return
+						}
+					}
+				}
+				for _, env := range []int{0xf9, 0x09, 0xf1, 0x87} {
+					if !yield(c20Long{Env: env, Env2: -1, Cycles: long, Sweep: true}) {
+						return
+					}
+				}
+			}, func() struct{} { return struct{}{} }, c20LongCheck)
 	})
 }
